@@ -23,7 +23,26 @@ class Raiser:
         n = self.n
         self.n += 1
         if self.k is not None and n == self.k:
+            self.flushes_at_raise = len(FLUSHES)
             raise KeyboardInterrupt
+
+
+FLUSHES = []
+_orig_flush = np.memmap.flush
+
+
+def _rec_flush(self):
+    FLUSHES.append(("f", str(getattr(self, "filename", "?"))))
+    return _orig_flush(self)
+
+
+_orig_setitem = np.memmap.__setitem__
+
+
+def _rec_setitem(self, key, val):
+    if _R.n > 0:      # ignore the fill written when the arrays are created, before sampling starts
+        FLUSHES.append(("w", str(getattr(self, "filename", "?"))))
+    return _orig_setitem(self, key, val)
 
 
 _R = Raiser(None)
@@ -40,7 +59,10 @@ def gnld(q):
 
 
 def trace(state):
-    _R.tick()
+    if getattr(_R, "sizing", True) and _R.n == 0 and not getattr(_R, "sized", False):
+        _R.sized = True           # the call made by _init_traces to size the arrays: before sampling starts
+    else:
+        _R.tick()
     return {"pos": state.pos}
 
 
@@ -58,7 +80,8 @@ def real_interrupt_search(ctx):
     import mici
     global _R
     bad = 0
-    configs = [("static", 2, 0, 4, False, 1), ("static", 3, 3, 3, True, 1), ("multinomial", 2, 0, 3, False, 1), ("static", 2, 2, 3, True, 2)]
+    configs = [("static", 2, 0, 4, False, 1), ("static", 3, 3, 3, True, 1), ("multinomial", 2, 0, 3, False, 1), ("static", 2, 2, 3, True, 2),
+               ("static", 3, 0, 5, False, 2)]
     if ctx.thorough:
         configs += [("multinomial", 3, 4, 3, True, 1), ("static", 2, 0, 4, False, 2), ("multinomial", 2, 3, 2, True, 2)]
     for kind, n_chain, n_warm, n_main, memmap, n_process in configs:
@@ -73,9 +96,14 @@ def real_interrupt_search(ctx):
             _R = Raiser(k)
             s = make(kind, seed)
             metric0 = s.system.metric
+            del FLUSHES[:]
+            np.memmap.flush = _rec_flush
+            np.memmap.__setitem__ = _rec_setitem
             try:
                 return s.sample_chains(n_warm, n_main, [q.copy() for q in inits], force_memmap=memmap, memmap_path=path, **kw), _R.n
             finally:
+                np.memmap.flush = _orig_flush
+                np.memmap.__setitem__ = _orig_setitem
                 s.system.metric = metric0
         full, total_calls = run(None)
         fulltr = [np.asarray(a).copy() for a in full.traces["pos"]]
@@ -111,6 +139,17 @@ def real_interrupt_search(ctx):
                         files = sorted(Path(td).glob("trace_*pos*.npy"))
                         if len(files) == n_chain and not np.array_equal(np.load(files[c]), tr, equal_nan=True):
                             probs.append(f"chain {c}: memmap file on disk differs from the returned array (not flushed)")
+                if memmap and n_process == 1:
+                    last = {}
+                    for ev, fn in FLUSHES:
+                        last[fn] = ev
+                    unflushed = sorted(fn for fn, ev in last.items() if ev == "w")
+                    if unflushed:
+                        probs.append(f"{len(unflushed)} memory-mapped outputs were written after their last flush (e.g. {Path(unflushed[0]).name})")
+                if n_process > 1:
+                    with_rows = sum(1 for c in range(n_chain) if not np.isnan(np.asarray(out.traces["pos"][c])).all())
+                    if len(out.final_states) < with_rows:
+                        probs.append(f"{len(out.final_states)} final states returned although {with_rows} chains recorded iterations")
                 for st in out.final_states:
                     if not (np.all(np.isfinite(st.pos)) and (st.mom is None or np.all(np.isfinite(st.mom)))):
                         probs.append("a returned final state is not finite")
